@@ -93,13 +93,25 @@ THEOREMS = [
     {"name": "C15_no_evaluation_failure_escapes", "strength": "F",
      "text": "C11's containment restated: no expression-evaluation failure escapes any conductor API call, for every "
              "definition, evaluator, state and operation"},
-    {"name": "(tested, not proved) accepted => no internal error; grammar and unassigned-variable faults reported",
+    {"name": "C15_no_internal_error / C15_no_internal_error_history (props/C15b.v)", "strength": "P",
+     "text": "for every evaluator that itself raises no internal class: from a well-formed state (WF, decidable; the fresh "
+             "state is WF, C15_fresh_state_wellformed) over a statically well-formed spec/graph (static_ok, decidable), every "
+             "API operation in scope keeps WF and raises no KeyError / IndexError / TypeError / ValueError / AttributeError -- "
+             "only the documented refusals; lifted to histories. In scope: status requests, polls, rendering, persist, and "
+             "provider events that are not malformed calls; the five malformed-call clauses (event for an engine command, "
+             "item index out of range, plain event on an unoffered with-items task, completion before start, abend of an "
+             "unstaged with-items task) each come with an Example showing the engine's internal error. NOT in scope: rerun "
+             "(findings D8, C15-rerun-of-inflight-task break the invariant); static_ok also demands at most one edge from "
+             "a task to an engine command (a limit of the proof, not of the engine). This proof attempt found D29 and, "
+             "independently of the sweep, D30"},
+    {"name": "C15_get_next_tasks_no_internal / C15_request_status_no_internal / C15_render_output_no_internal", "strength": "F",
+     "text": "these three operations raise no internal class in any state (render: any WF state)"},
+    {"name": "(tested, not proved) grammar and unassigned-variable faults reported; no internal error with reruns",
      "strength": "T",
-     "text": "absence of KeyError / IndexError / TypeError / AttributeError / ValueError / InvalidTask* from the "
-             "conductor on accepted definitions under conformant histories is TESTED by the monitor of this check, "
-             "not proved; grammar validation and the regex extraction of variable references are oracles, tested by "
-             "fault injection at every inspected position; the unreachable-join detector and the context worklist are "
-             "modelled and compared, without theorems"},
+     "text": "grammar validation and the regex extraction of variable references are oracles, tested by fault injection "
+             "at every inspected position; the unreachable-join detector and the context worklist are modelled and "
+             "compared, without theorems; accepted definitions are run under random histories (reruns included) in lock "
+             "step with the conductor model"},
 ]
 TRUSTED_BASE = [
     "Coq 8.16.1 kernel via coqc (full .vo build); vm_compute in the examples and in the generated cases files; no "
